@@ -187,7 +187,7 @@ def gen_ops(rng, sc, tier):
         delta = rng.choice([L / 3, L / 6, L / 10, 1.0, 2.5 * L, L])
         if L / delta + n > 45:
             delta = L / 8 if n <= 30 else 2.5 * L
-        ops.append(("rope", "rope %s %s" % (B(delta), B(rng.choice([0.1, 0.1, 0.0, 0.5])))))
+        ops.append(("rope", "rope %s %s" % (B(delta), B(rng.choice([0.1, 0.1, 0.01, 0.5])))))
     ops.append(("subdivide", "subdivide"))
     if L / sc.lvs() < 3000:
         ops.append(("interp", "interp"))
@@ -309,8 +309,13 @@ def oracle(sc, routine, line, res, objective, goals_used):
         if not (goals_used and out_bits[-1] in goal_bits):
             fails.append(("keeps_last", "last state is neither the input's last state nor a goal state"))
     # --- classification of every output motion
-    cm_true = [(a, b) for a, b, ans in res["cm"] if ans]
-    cm_true_set = set(cm_true)
+    # partialShortcutPath calls checkMotion(s0, s1) BEFORE it orders the two sampled points along the path, so the
+    # validated pair may enter the path reversed; in the (symmetric) spaces used here that is the same motion
+    cm_true_set = set()
+    for a, b, ans in res["cm"]:
+        if ans:
+            cm_true_set.add((a, b))
+            cm_true_set.add((b, a))
     in_pairs = set(zip(inp_bits[:-1], inp_bits[1:]))
     segs = [(fl(a), fl(b)) for a, b in in_pairs] + [(fl(a), fl(b)) for a, b in cm_true_set]
     margin = sc.lvs()
@@ -339,9 +344,8 @@ def oracle(sc, routine, line, res, objective, goals_used):
                     ty = on_segment(sc, y, a, b, tol)
                     if ty is None:
                         continue
-                    if tx <= ty + 1e-9:
-                        cls = "b"
-                        break
+                    cls = "b"
+                    break
         if cls is None:
             fails.append(("only_validated_motions", "output motion %d is not an input motion, a piece of an input or validated "
                           "motion, or a pair checkMotion answered true for" % i))
@@ -437,28 +441,73 @@ def oracle_hybrid(sc, line, out, paths):
 
 
 # ---------------------------------------------------------------------------------- running
+def classify_crash(line, err):
+    """name the crash site from the sanitizer report (used as the `class` key of the violation record)"""
+    t = line.split()
+    if "selectAlongPath" in err and "heap-buffer-overflow" in err and t[0] == "rnd" and t[3] == "perturb" and F(t[-1]) == 0.0:
+        return "selectAlongPath-oob-snap0"
+    for key in ("heap-buffer-overflow", "heap-use-after-free", "SEGV", "runtime error", "Assertion"):
+        if key in err:
+            return key
+    return "exit"
+
+
+def run_ops(ck, hbin, hdr, ops):
+    """run the op lines in one harness process; after a crash the remaining ops are re-run in a fresh process.
+    returns (outs: list of line|None, crashes: list of (op index, rc, stderr))"""
+    outs = [None] * len(ops)
+    crashes = []
+    pending = list(range(len(ops)))
+    nh = len(hdr) - 1
+    while pending:
+        impl, rc, err = ck.run_bin(hbin, hdr + [ops[i][1] for i in pending], timeout=90)
+        if impl is None:
+            # timeout: no partial output; run the ops one by one
+            for i in pending:
+                o, rc1, err1 = ck.run_bin(hbin, hdr + [ops[i][1]], timeout=30)
+                if o is None or rc1 != 0 or len(o) != nh + 1:
+                    crashes.append((i, rc1, err1 or ""))
+                else:
+                    outs[i] = o[nh]
+            break
+        got = impl[nh:]
+        for k, o in enumerate(got[:len(pending)]):
+            outs[pending[k]] = o
+        if rc != 0 and len(got) < len(pending):
+            crashes.append((pending[len(got)], rc, err or ""))
+            pending = pending[len(got) + 1:]
+        elif len(got) < len(pending):
+            crashes.append((pending[len(got)], rc, "harness stopped without an error code"))
+            pending = pending[len(got) + 1:]
+        else:
+            pending = []
+    return outs, crashes
+
+
 def run_scenario(ck, hbin, hchk, sc, ops, tag, seedtag):
     """returns a list of issue dicts; counts into ck (thread-safe enough: GIL)"""
     issues = []
     hdr = ["pathops", sc.env_line(), sc.states_line("path", sc.path), sc.states_line("goals", sc.goals)]
-    script = hdr + [l for _, l in ops]
-    impl, rc, err = ck.run_bin(hbin, script, timeout=300)
-    if impl is None:
-        return [dict(kind="oracle", routine="harness", clause="timeout", detail="harness timed out", script=script, observed=[])]
-    outs = impl[3:]
-    if len(impl) < 3 or not impl[0].startswith("ok") or not impl[1].startswith("ok chk="):
-        return [dict(kind="oracle", routine="harness", clause="protocol", detail="header lines: %r" % (impl[:3],), script=script, observed=impl)]
+    impl, rc, err = ck.run_bin(hbin, hdr, timeout=60)
+    if impl is None or len(impl) < 3 or not impl[0].startswith("ok") or not impl[1].startswith("ok chk="):
+        return [dict(kind="oracle", routine="harness", clause="protocol", detail="header lines: %r" % (impl and impl[:3],), script=hdr, observed=impl or [])]
     if impl[1] != "ok chk=1":
         ck.count("scenario:input-not-valid-skipped")
         return []
-    if rc != 0 or len(outs) < len(ops):
-        k = len(outs)
-        bad = ops[k][0] if k < len(ops) else "exit"
-        return [dict(kind="oracle", routine=bad, clause="crash", detail="harness stopped at op %d (%s), rc=%s: %s"
-                     % (k, bad, rc, (err or "")[-600:]), script=hdr + [ops[k][1]] if k < len(ops) else script, observed=impl)]
+    outs, crashes = run_ops(ck, hbin, hdr, ops)
+    for i, rc, err in crashes:
+        routine, line = ops[i]
+        cls = classify_crash(line, err)
+        ck.count("crash:" + routine + ":" + cls)
+        issues.append(dict(kind="oracle", routine=routine, clause="indices_in_range" if cls == "selectAlongPath-oob-snap0" else "crash", cls=cls,
+                           detail="the routine does not return (rc=%s): %s" % (rc, err[-700:] if rc != "timeout" else "no result within 30 s"),
+                           script=hdr + [line], observed=[err[:1500]]))
     dscript = ["pathops", sc.env_line(), sc.states_line("path", sc.path)]
     dmap = []
+    pending_fails = {}
     for idx, ((routine, line), o) in enumerate(zip(ops, outs)):
+        if o is None:
+            continue
         t = line.split()
         rnd = t[0] == "rnd"
         objective = t[2] if rnd else "len"
@@ -479,9 +528,12 @@ def run_scenario(ck, hbin, hchk, sc, ops, tag, seedtag):
             ck.count("changed:" + routine)
         if not res["chk"]:
             ck.count("result-check-false:" + routine)
-        for clause, detail in fails:
-            issues.append(dict(kind="oracle", routine=routine, clause=clause, detail=detail, objective=objective,
-                               rnd=rnd, script=hdr + [line], observed=[o]))
+        fail_issues = [dict(kind="oracle", routine=routine, clause=clause, detail=detail, objective=objective,
+                            rnd=rnd, script=hdr + [line], observed=[o]) for clause, detail in fails]
+        if not rnd and routine in LOCKSTEP:
+            pending_fails[line] = fail_issues      # judged after the model run (an index error explains them)
+        else:
+            issues += fail_issues
         if not rnd and routine in LOCKSTEP:
             dl = line
             if routine == "interp":
@@ -493,11 +545,22 @@ def run_scenario(ck, hbin, hchk, sc, ops, tag, seedtag):
     if dmap:
         model, rc2, err2 = ck.run_bin(ck.driver(DRIVER), dscript, timeout=300)
         if rc2 != 0 or model is None or len(model) != len(dmap) + 2:
+            for v in pending_fails.values():
+                issues += v
             issues.append(dict(kind="corr", routine="driver", clause="driver", detail="driver rc=%s lines=%s %s" % (rc2, None if model is None else len(model), (err2 or "")[-300:]),
                                script=dscript, observed=model or []))
             return issues
         for (routine, line, res, o), m in zip(dmap, model[2:]):
             ck.traces_validated += 1
+            if m == "idx-error":
+                # the model's checked indexing failed: the real routine indexes a vector out of range on this input
+                snap0 = routine == "pshort" and F(line.split()[4]) == 0.0
+                issues.append(dict(kind="idx", routine=routine, clause="indices_in_range",
+                                   cls="snap0-sample-at-path-end" if snap0 else "model-index-error",
+                                   detail="checked indexing fails in the model: the routine indexes a vector out of range",
+                                   script=hdr + [line], observed=[o], model=[m]))
+                continue
+            issues += pending_fails.get(line, [])
             if routine == "rope":
                 unf, _, fx = m.partition(" | fixed ")
                 mu = unf.split(" oob ")[0]
@@ -637,11 +700,28 @@ def handle(ck, issues, hchk, state):
                     continue
             ck.report({"engine": "pathops", "routine": "rope", "clause": "indices_in_range", "class": it["cls"]},
                       script=it["script"], expected=it.get("model"), observed=it["observed"], engine="pathops")
+        elif it["kind"] == "idx":
+            ck.count("idx:" + it["routine"] + ":" + it["cls"])
+            if state["idx_confirmed"] < 3:
+                if confirm_f9(ck, hchk, it):
+                    state["idx_confirmed"] += 1
+                    ck.count("idx:confirmed-by-bounds-checked-build")
+                else:
+                    ck.disagreements += 1
+                    state["bad"] += 1
+                    ck.report({"engine": "pathops", "routine": it["routine"], "what": "model reports an index error that the bounds-checked build does not see"},
+                              script=it["script"], expected=it.get("model"), observed=it["observed"], found_input=False, engine="pathops",
+                              obligation="correspondence pathops: %s checked indexing (model vs -D_GLIBCXX_ASSERTIONS build)" % it["routine"])
+                    continue
+            if ck.report({"engine": "pathops", "routine": it["routine"], "clause": "indices_in_range", "class": it["cls"]},
+                         script=it["script"], expected=it.get("model"), observed=it["observed"], engine="pathops"):
+                state["bad"] += 1
         elif it["kind"] == "oracle":
-            state["bad"] += 1
-            ck.log("property failure: %s/%s: %s" % (it["routine"], it["clause"], it["detail"]))
+            if ck.known_finding({"engine": "pathops", "routine": it["routine"], "clause": it["clause"], "class": it.get("cls")}) is None:
+                state["bad"] += 1
+                ck.log("property failure: %s/%s: %s" % (it["routine"], it["clause"], it["detail"][:300]))
             ck.report({"engine": "pathops", "routine": it["routine"], "clause": it["clause"], "objective": it.get("objective", "len"),
-                       "what": it["detail"]}, script=it["script"], expected=None, observed=it["observed"], engine="pathops")
+                       "class": it.get("cls"), "what": it["detail"]}, script=it["script"], expected=None, observed=it["observed"], engine="pathops")
         else:
             state["bad"] += 1
             ck.disagreements += 1
@@ -670,7 +750,7 @@ def run(ck):
     if ck.tier == "thorough" and ck.lean_ok:
         ck.leanchecker(["OmplModel.Props.C17"])
     hbin, hchk = build(ck)
-    state = {"bad": 0, "f9_confirmed": 0}
+    state = {"bad": 0, "f9_confirmed": 0, "idx_confirmed": 0}
     for name, script in corpus():
         handle(ck, run_corpus_script(ck, hbin, name, script), hchk, state)
         ck.count("scripts:corpus")
